@@ -26,7 +26,10 @@ SHAPES["dupref"] = dict(nodes={"a": (1, []), "c": (2, []), "d": (3, ["c"]), "b":
 SHAPES["twobranch"] = dict(nodes={"a": (1, []), "c": (2, []), "b": (3, ["a"]), "d": (4, ["c"]), "x": (5, ["b"]), "y": (6, ["d"])},
                            make=lambda x, fails: D.TwoBranches(x=x, a_fails="a" in fails),
                            outputs=lambda x: {"x": x + 1 + 3 + 5, "y": x + 2 + 4 + 6})
-FAILABLE = {"indep": ["f", "k"], "forkjoin": ["p", "q"], "splitfail": ["s"], "twobranch": ["a"]}
+SHAPES["nestedfail"] = dict(nodes={"r1": (1, []), "r2": (2, ["r1"]), "r3": (3, ["r2"]), "a": (11, []), "b": (12, ["a"])},
+                            make=lambda x, fails: D.NestedFail(x=x, inner_fails="a" in fails),
+                            outputs=lambda x: {"s": x + 11 + 12, "r": x + 1 + 2 + 3})
+FAILABLE = {"indep": ["f", "k"], "forkjoin": ["p", "q"], "splitfail": ["s"], "twobranch": ["a"], "nestedfail": ["a"]}
 
 
 def tag_of(ev):
